@@ -324,13 +324,13 @@ HOLDINGS_STMTS = [
 # process -- must not show.  The list starts with users of one reading and ends with users of the other: the two
 # reference processes (pristine_refs, which run it backwards and forwards) meet every constant through different readings
 # first.
-SHARED_CONSTS = ['bofa', 'expenses:food', '(check)ing', 'us:.*cash', 'income', 'Assets']
+SHARED_CONSTS = ['bofa', 'expenses:food', '(check)ing', 'us:.*cash']
 _ONE = [(c,) for c in SHARED_CONSTS]
 SHARED_STMTS = [
     ("SELECT account, count(*) AS n FROM #postings WHERE account ~ %s GROUP BY account ORDER BY account", _ONE),
     ("SELECT date, lineno, has_account(%(p)s) AS h FROM #postings ORDER BY date, lineno, account, number", [{'p': c} for c in SHARED_CONSTS]),
     ("SELECT DISTINCT account, account = %s AS e, length(%s) AS n, upper(%s) AS u FROM #postings ORDER BY account",
-     [(c, c, c) for c in SHARED_CONSTS[:3]]),
+     [(c, c, c) for c in SHARED_CONSTS[:2]]),
     ("SELECT DISTINCT lower(account) AS a, grep(%s, lower(account)) AS g FROM #postings WHERE lower(account) ~ %s ORDER BY a",
      [('Assets', 'Assets'), ('ASSETS:us', 'bofa'), ('bofa', 'ASSETS:us'), ('Income', 'Income')]),
     ("SELECT DISTINCT account, grep('bofa', account) AS g, subst('expenses:food', 'X', account) AS u FROM #postings "
